@@ -488,6 +488,46 @@ impl Obs {
     }
 }
 
+impl Obs {
+    /// Seeded probabilistic delay of the calling thread (profile `base` rates, or the `focus`
+    /// rates when `class` is the focused one).
+    fn perturb(&self, class: Class) {
+        let class = class as u32;
+        let (pm, us) = if self.focus_class.load(Relaxed) == class {
+            (self.focus_pm.load(Relaxed), self.focus_us.load(Relaxed))
+        } else {
+            (self.base_pm.load(Relaxed), self.base_us.load(Relaxed))
+        };
+        if pm == 0 {
+            return;
+        }
+        let x = tl_rand();
+        if (x % 1000) as u32 >= pm {
+            return;
+        }
+        let us = 1 + (x >> 20) % us.max(1) as u64;
+        self.delay_us(us);
+    }
+}
+
+/// Protocol events double as schedule points: a change to grevm may move code relative to the
+/// fixed `point()` sites, but the events mark the protocol steps themselves (several are emitted
+/// under the lock of the state they describe - a thread pre-empted while holding a lock is a
+/// schedule the OS can produce).
+fn class_of_event(e: &Event) -> Option<Class> {
+    Some(match e {
+        Event::ExecBegin { .. } => Class::ExecStart,
+        Event::ExecEnd { .. } => Class::ExecPublish,
+        Event::ValidationBegin { .. } | Event::ValidationEnd { ok: true, .. } => Class::ValidateScan,
+        Event::Rewind { .. } => Class::EstimateRewind,
+        Event::Finality { .. } | Event::FinalityPublished { .. } => Class::Finality,
+        Event::CommitTake { .. } | Event::CommitPublished { .. } => Class::Commit,
+        Event::DepAdd { .. } | Event::DepCleared { .. } | Event::DepKey { .. } | Event::DepCommitRelease { .. } | Event::DepHandoff { .. } => Class::Dep,
+        Event::Abort { .. } => Class::Abort,
+        _ => return None,
+    })
+}
+
 impl Hooks for Obs {
     fn point(&self, point: Point, a: usize, b: usize) {
         if !self.recording.load(Relaxed) {
@@ -504,21 +544,7 @@ impl Hooks for Obs {
         if bits != 0 {
             self.director(bits, point, a, b);
         }
-        let class = class_of(point) as u32;
-        let (pm, us) = if self.focus_class.load(Relaxed) == class {
-            (self.focus_pm.load(Relaxed), self.focus_us.load(Relaxed))
-        } else {
-            (self.base_pm.load(Relaxed), self.base_us.load(Relaxed))
-        };
-        if pm == 0 {
-            return;
-        }
-        let x = tl_rand();
-        if (x % 1000) as u32 >= pm {
-            return;
-        }
-        let us = 1 + (x >> 20) % us.max(1) as u64;
-        self.delay_us(us);
+        self.perturb(class_of(point));
     }
 
     fn event(&self, event: Event) {
@@ -595,6 +621,10 @@ impl Hooks for Obs {
         // holds its transaction lock here, which is exactly what a pre-empted validator does.
         if let Event::ValidationEnd { txid, incarnation, ok: false } = event {
             self.point(Point::ValidateAfterEstimate, txid, incarnation);
+        } else if self.recording.load(Relaxed) &&
+            let Some(class) = class_of_event(&event)
+        {
+            self.perturb(class);
         }
     }
 
